@@ -34,8 +34,10 @@ pub enum When {
 
 #[derive(Clone, Debug, PartialEq, Eq, Hash, Serialize, Deserialize)]
 pub enum Mismatch {
-    /// follower `party` schedules a different program text
-    Program { party: usize },
+    /// follower `party` schedules a different program text; kind 0: trailing comment appended,
+    /// 1: an operator changed, 2: same characters but a line break moved so that part of the
+    /// expression ends up inside a comment (both versions type-check, they compute different things)
+    Program { party: usize, #[serde(default)] kind: u8 },
     /// follower `party` names another follower as leader
     Leader { party: usize, claims: usize },
     /// `party` schedules a program that does not type-check
@@ -167,7 +169,21 @@ pub async fn explore(cfg: &SrvConfig, plan: &Plan, baseline_threads: usize) -> O
     let id = Uuid::from_u128(plan.uuid | 1);
     let mut policies: Vec<_> = (0..n).map(|p| cfg.policy(p, id)).collect();
     match &plan.mismatch {
-        Some(Mismatch::Program { party }) => policies[*party].program.push_str("// different text\n"),
+        Some(Mismatch::Program { party, kind }) => match kind % 3 {
+            0 => policies[*party].program.push_str("// different text\n"),
+            1 => policies[*party].program = policies[*party].program.replacen("x0", "(x0 ^ 1u8)", 2).replacen("(x0 ^ 1u8): u8", "x0: u8", 1),
+            _ => {
+                let args: Vec<String> = (0..n).map(|p| format!("x{p}: u8")).collect();
+                for (p, pol) in policies.iter_mut().enumerate() {
+                    pol.program = if p == *party {
+                        format!("pub fn main({}) -> u8 {{ x0 // first operand ^ x1\n }}\n", args.join(", "))
+                    } else {
+                        format!("pub fn main({}) -> u8 {{ x0 // first operand\n ^ x1 }}\n", args.join(", "))
+                    };
+                    pol.constants.clear();
+                }
+            }
+        },
         Some(Mismatch::Leader { party, claims }) => policies[*party].leader = *claims,
         Some(Mismatch::IllTyped { party }) => policies[*party].program = "pub fn main(a: u8, b: u8) -> bool { a + b }".to_string(),
         None => {}
